@@ -389,6 +389,9 @@ def evaluate_history(lab, spec, roots, refs, sessions, counters, want):
             here = f'session {sid} step {o["step"]} {op} {step.get("task") or step.get("tasks") or step.get("what") or ""}'
             key = (sid, step.get('chain'))
             obs_runs = [x for x in o['runs'] if x['phase'] == 'start']
+            for x in o['runs']:
+                if x['phase'] == 'run_info_error':
+                    add('C18', 'record_refused', f'{here}: save_to_run_info refused the record {x.get("record")} of {x["task"]}: {x.get("error")}')
             if op == 'build':
                 if not o['ok']:
                     add('C08', 'build', f'{here}: valid configuration failed to build: {o.get("exc")}: {o.get("msg")}')
@@ -677,7 +680,8 @@ def check_records(what, o, ch, ref, refs, latest, model, add, here, counters):
             wref = refs[lr['ri']]
             wt = wref.tasks.get(lr['task']) or next((x for x in wref.tasks.values() if x['slug'] == lr['slug'] and x['key'] == lr['key']), None)
             exp_log = [{'lab_uid': lr['uid'], 'n': 1}, 0, {},
-                       {'lab_uid': lr['uid'], 'mean': ['np', 'float64', 0.25], 'count': ['np', 'int64', 7], 'where': ['path', 'out/x'], 'shape': ['tuple', [2, 3]]},
+                       {'lab_uid': lr['uid'], 'mean': ['np', 'float64', 0.25], 'count': ['np', 'int64', 7], 'where': ['path', 'out/x'], 'shape': ['tuple', [2, 3]],
+                        'hist': ['map', [[3, 1], [12, 2]]], 'best': ['float', 'inf']},
                        {'lab_uid': lr['uid'], 'done': 1}, {'lab_uid': lr['uid'], 'done': 2, 'more': 5}, {'lab_uid': lr['uid'], 'n': 2}]
             if info.get('log') != exp_log:
                 add('C18', 'run_info_log', f'{here}: run info of {n} holds records {info.get("log")}, the latest run of this location added {exp_log}')
